@@ -181,11 +181,12 @@ COVER = {
     "rcp_safe_t": {"float": [2], "double": [41]},
     "rcp_safe": {"float": [2], "double": [41]},
     "rsqrt": {"float": [3], "double": [42]},
-    "clamp": {"float": [4], "double": [43], "int": [24], "int64_t": [27], "unsigned": [47]},
+    "clamp": {"float": [4], "double": [43], "int": [24], "int64_t": [27], "unsigned": [47],
+              "int8_t..uint64_t (8 widths)": [71]},
     "deg2rad": {"float": [5], "double": [44]},
     "madd": {"float": [6], "double": [45]},
     "lerp": {"float": [7], "double": [46]},
-    "divRoundUp": {"int": [20], "unsigned": [21], "size_t": [22], "int64_t": [23]},
+    "divRoundUp": {"int": [20], "unsigned": [21], "size_t": [22], "int64_t": [23], "int8_t..uint64_t (8 widths)": [70]},
     "linear_to_srgb": {"float": [14]},
 }
 
@@ -209,6 +210,10 @@ EXPECTED_SIGS = {
     ("rsqrt", "float (const float)", "function"),
     ("sign", "float (const float)", "function"),
 }
+
+# the standard integer widths of harness fn 70 / 71: id -> (name, bits, signed)
+INT_TYPES = {0: ("int8_t", 8, True), 1: ("uint8_t", 8, False), 2: ("int16_t", 16, True), 3: ("uint16_t", 16, False),
+             4: ("int32_t", 32, True), 5: ("uint32_t", 32, False), 6: ("int64_t", 64, True), 7: ("uint64_t", 64, False)}
 
 # generator family of harness fn 50 (GenStub<R, MIN, MAX>): id -> (min, max); same table as ModelB32.gen_range
 GEN_FAMILY = {0: (0, 2 ** 32 - 1), 1: (1, 2147483646), 2: (1, 6), 3: (0, 2 ** 64 - 1), 4: (1, 2305843009213693950),
@@ -278,7 +283,7 @@ def gen_ref_cases(fcases, icases, r):
     by_fn = {}
     for c in fcases + icases:
         fn = int(c.split()[0])
-        if fn in (1, 2, 3, 4, 5, 6, 7, 8, 14, 20, 21, 22, 23, 24, 27, 40, 41, 42, 43, 44, 45, 46, 47):
+        if fn in (1, 2, 3, 4, 5, 6, 7, 8, 14, 20, 21, 22, 23, 24, 27, 40, 41, 42, 43, 44, 45, 46, 47, 70, 71):
             by_fn.setdefault(fn, []).append(c)
     base = []
     for fn, cs in sorted(by_fn.items()):
@@ -455,6 +460,25 @@ def oracle(case, out, build, exe_query=None):
         if aa < 0 or bb <= 0 or aa + bb - (0 if fn in (20, 23) else 1) >= (1 << bits):
             return True, "(outside a>=0, b>0, no overflow: no requirement)"
         return o * bb >= aa and (o - 1) * bb < aa, "least q with q*b >= a"
+    if fn == 70:
+        # divRoundUp<T>: the mathematical definition, with the C++ usual arithmetic conversions explicit: for T narrower than
+        # int the operands are promoted, (a+b-1)/b is formed in int and narrowed ONCE at the return
+        ty, aa, bb = a
+        bits, sgn = INT_TYPES[ty][1], INT_TYPES[ty][2]
+        tmax = (1 << (bits - 1)) - 1 if sgn else (1 << bits) - 1
+        if aa < 0 or bb <= 0:
+            return True, "(outside a>=0, b>0: no requirement)"
+        if bits >= 32 and aa + bb - (0 if sgn else 1) > tmax:
+            return True, "(a+b overflows T: no requirement)"
+        q = -(-aa // bb)
+        if q > tmax:
+            return True, "(the least quotient does not fit T)"
+        return o == q, "divRoundUp<%s>(%d,%d) = least q with q*b >= a = %d" % (INT_TYPES[ty][0], aa, bb, q)
+    if fn == 71:
+        ty, x, lo, hi = a
+        if lo > hi:
+            return True, "(lower>upper)"
+        return lo <= o <= hi and (o == x or not lo <= x <= hi), "clamp<%s>: inside [lower,upper], == x when x inside" % INT_TYPES[ty][0]
     if fn in (24, 27):
         x, lo, hi = a
         if lo > hi:
@@ -653,6 +677,26 @@ def gen_int_cases(r, scale):
         for _ in range(150 * scale):
             cs.append("%d %d %d %d" % (fn, r.choice(vals + [r.randint(-mx - 1, mx)]), r.choice(vals + [r.randint(-mx - 1, mx)]),
                                        r.choice(vals + [r.randint(-mx - 1, mx)])))
+    # every standard integer width, signed and unsigned: a+b-1 beyond max(T) for the narrow ones (computed in int there),
+    # multiples of b +-1, type extremes; signed 32/64-bit operands keep a+b in range (no UB), unsigned ones may wrap
+    for ty, (_, bits, sgn) in INT_TYPES.items():
+        tmax = (1 << (bits - 1)) - 1 if sgn else (1 << bits) - 1
+        tmin = -(1 << (bits - 1)) if sgn else 0
+        pairs = [(tmax, tmax), (tmax, 2), (tmax, 1), (tmax - 1, 2), (tmax // 2 + 1, tmax // 2), (tmax, tmax - 1), (0, 1), (0, tmax),
+                 (1, tmax), (tmax // 3 * 2, tmax // 3 + 1), (200 if tmax >= 200 else 100, 100), (tmax, 3), (tmax - 2, 3)]
+        for _ in range(40 * scale):
+            b = r.choice([1, 2, 3, 7, 10, 100 if tmax > 100 else 5, r.randint(1, tmax), tmax, tmax // 2 + 1])
+            k = r.choice([0, 1, 2, tmax // b, max(tmax // b - 1, 0), r.randint(0, tmax // b)])
+            a = min(tmax, max(0, r.choice([k * b, k * b + 1, k * b - 1, r.randint(0, tmax)])))
+            pairs.append((a, b))
+        for a, b in pairs:
+            if bits >= 32 and sgn and a + b > tmax:
+                a = tmax - b
+            cs.append("70 %d %d %d" % (ty, a, b))
+        vals = [0, 1, tmax, tmax - 1, tmin, tmin + 1, tmax // 2]
+        for _ in range(25 * scale):
+            cs.append("71 %d %d %d %d" % (ty, r.choice(vals + [r.randint(tmin, tmax)]), r.choice(vals + [r.randint(tmin, tmax)]),
+                                          r.choice(vals + [r.randint(tmin, tmax)])))
     for _ in range(100 * scale):
         vals = [0, 1, 2, 2 ** 31, 2 ** 32 - 1, 2 ** 32 - 2, r.getrandbits(32)]
         cs.append("47 %d %d %d" % (r.choice(vals), r.choice(vals), r.choice(vals)))
@@ -693,6 +737,10 @@ def nontrivial(case, out):
         return (hi - lo) < 2.0 ** -94 or (lo < 0 < hi) or lo == hi or a[2] in (0, 1, 2 ** 31, 2 ** 32 - 1)
     if fn in (20, 21, 22, 23):
         return a[1] > 1 and a[0] % a[1] != 0 or a[0] + a[1] > (1 << 31)
+    if fn == 70:
+        return a[2] > 1 and (a[1] % a[2] != 0 or a[1] + a[2] - 1 > ((1 << (INT_TYPES[a[0]][1] - 1)) - 1))
+    if fn == 71:
+        return str(a[1]) != out.split()[0] or a[1] in (a[2], a[3])
     if fn in (25, 29):
         return a[0] < 0 or a[1] < 0 or a[0] > 1000
     return fn == 13
@@ -857,7 +905,7 @@ def judge_exh(ctx, label, exe, stride, res=None):
 GEN_NEEDED = ["clamp__f_f_f", "clamp__i_i_i", "cvt_uint32__f", "cvt_uint32__v4f", "deg2rad__f", "divRoundUp__i_i",
               "divRoundUp__l_l", "divRoundUp__u_u", "divRoundUp__ul_ul", "lerp__f_f_f", "linear_to_srgb__f",
               "linear_to_srgba8__v4f", "madd__f_f_f", "rcp__f", "rcp_safe__f", "rsqrt__f", "sign__f",
-              "rcp__d", "rcp_safe__d", "rsqrt__d", "clamp__d_d_d", "deg2rad__d", "madd__d_d_d", "lerp__f_d_d",
+              "divRoundUp__c_c", "divRoundUp__uc_uc", "divRoundUp__s_s", "divRoundUp__us_us", "rcp__d", "rcp_safe__d", "rsqrt__d", "clamp__d_d_d", "deg2rad__d", "madd__d_d_d", "lerp__f_d_d",
               "pcg_detail_xsh_rr_mixin_output__ul", "pcg_extras_rotr__u_uc", "pcg_detail_specific_stream_mk__ul",
               "pcg_detail_default_multiplier_multiplier___4"]
 
@@ -1239,6 +1287,13 @@ def run(ctx):
             pairs["%s<%s>" % (name, ty)] = {"harness_fn": codes, "cases_x_builds": n}
             if n == 0 and name != "linear_to_srgb":
                 ctx.broken.append("no case ran %s at %s" % (name, ty))
+    widths = {}
+    for c in icases_preview:
+        t = c.split()
+        if t[0] in ("70", "71"):
+            key = "%s<%s>" % ("divRoundUp" if t[0] == "70" else "clamp", INT_TYPES[int(t[1])][0])
+            widths[key] = widths.get(key, 0) + 2
+    pairs.update({k: {"harness_fn": [70 if k.startswith("div") else 71], "cases_x_builds": v} for k, v in widths.items()})
     ctx.cov["function_type_pairs"] = pairs
     ctx.cov["rkmath_inventory"] = ["%s %s : %s" % (k, n, sg) for n, sg, k in inv]
     ctx.cov["float_cases"] = {"model_compared": len(fcases), "oracle_only": len(ocases), "per_function_x2_builds": hist}
